@@ -46,6 +46,10 @@
 (*        advertised value and contains every script (not provable)        *)
 (*   "HC" true checkpoints, false cfheaders at k, filter omits a script    *)
 (*   "FO" headers and checkpoints true; the filter for k omits a script    *)
+(*   "SH" truthful, but its checkpoint list is SHORTER: only the           *)
+(*        checkpoints up to height k                                       *)
+(*   "SF" truthful, but its answers to the broadcast getcfheaders hold one *)
+(*        filter hash too few                                              *)
 (***************************************************************************)
 EXTENDS Integers, Sequences, FiniteSets
 
